@@ -1866,11 +1866,15 @@ class Lib:
         names = [a.arg for a in lam.args.args]
         saved = dict(st.locals)
         vs = []
+        # bound variables are named by nesting depth: an inner binder never
+        # has the name of an enclosing one (no capture when macros nest), and
+        # two evaluations of the same formula give the SAME term (needed to
+        # recognise a goal that is literally an assumed formula)
+        self._qdepth = getattr(self, "_qdepth", 0) + 1
         for n in names:
             shape = sorts.get(n, "int")
             sort = eng.sort_of(shape)
-            self._qctr = getattr(self, "_qctr", 0) + 1
-            c = z3.Const(f"{n}!q{self._qctr}", sort)
+            c = z3.Const(f"{n}!q{self._qdepth}", sort)
             vs.append(c)
             st.locals[n] = self.spec_wrap(st, shape, c)
         try:
@@ -1886,6 +1890,7 @@ class Lib:
                             else terms[0])
         finally:
             st.locals = saved
+            self._qdepth -= 1
         if forall:
             return VBool(z3.ForAll(vs, body, patterns=pats) if pats
                          else z3.ForAll(vs, body))
